@@ -111,6 +111,7 @@ var headers = []string{
 	"on:\n  workflow_dispatch:\n    inputs:\n      alpha:\n        type: string\n        default: ${{ inputs.beta }}\n      beta:\n        type: string\n        description: uses ${{ inputs.gamma }} and ${{ github.event.inputs.alpha }}\n      gamma:\n        type: choice\n        options: [x, y]\n        default: ${{ inputs.nope }}\n",
 	"on:\n  schedule:\n    - cron: '36,38 * * * *'\n    - cron: '*/7 * * * *'\n    - cron: '0 0 * * *'\n  push:\n",
 	"on: push\n",
+	"on:\n  workflow_call:\n    outputs:\n      o1:\n        description: d\n        value: ${{ steps.s.outputs.v }}\n      o2:\n        description: d\n        value: ${{ matrix.os }}\n      o3:\n        description: d\n        value: ${{ needs.whoever.outputs.x }}\n",
 	"name: CI\non: [push, pull_request]\n",
 	"on:\n  push:\n    branches: [main]\n  workflow_dispatch:\n    inputs:\n      level:\n        type: choice\n        options: [a, b]\n      dry:\n        type: boolean\n",
 	"on:\n  pull_request:\n    types: [opened, synchronize]\nenv:\n  TOP: level\ndefaults:\n  run:\n    shell: bash\n",
@@ -198,6 +199,13 @@ var frags = []*Frag{
 	{Name: "github-event-release", Jobs: []FragJob{{ID: "{P}ger", Body: "    runs-on: ubuntu-latest\n    steps:\n      - run: echo \"${{ github.event.release.tag_name }} ${{ github.event.action }} ${{ github.event.release.nope.deeper }}\"\n"}}},
 	{Name: "reusable-workflows-differing-in-case-1", Tie: true, Assets: []string{"wf-case"}, Jobs: []FragJob{{ID: "{P}wc1", Body: "    uses: ./.github/workflows/reuse-Case.yml\n    with:\n      level: 3\n"}}},
 	{Name: "reusable-workflows-differing-in-case-2", Tie: true, Assets: []string{"wf-case"}, Jobs: []FragJob{{ID: "{P}wc2", Body: "    uses: ./.github/workflows/reuse-case.yml\n    with:\n      token: t\n"}}},
+	// an object type printed in a message whose property names differ only in letter case
+	{Name: "fromjson-case-keys", Tie: true, Jobs: []FragJob{{ID: "{P}fck", Body: "    runs-on: ubuntu-latest\n    steps:\n      - run: echo ${{ fromJSON('{\"Key\":1,\"key\":\"x\",\"KEY\":true,\"kEy\":null}').other }}\n"}}},
+	// the same JSON literal used through .* in one job and directly in another
+	{Name: "fromjson-literal-star", Jobs: []FragJob{{ID: "{P}fls", Body: "    runs-on: ubuntu-latest\n    steps:\n      - run: echo ${{ join(fromJSON('[{\"name\":\"a\"},{\"name\":\"b\"}]').*.name, ',') }}\n"}}},
+	{Name: "fromjson-literal-direct", Jobs: []FragJob{{ID: "{P}fld", Body: "    runs-on: ubuntu-latest\n    steps:\n      - run: echo ${{ fromJSON('[{\"name\":\"a\"},{\"name\":\"b\"}]').name }}\n"}}},
+	// a reference to a step id nobody defines, followed (later) by a step whose id is computed
+	{Name: "undefined-step-then-dynamic-id", Jobs: []FragJob{{ID: "{P}usd", Body: "    strategy:\n      matrix:\n        name: [a, b]\n    runs-on: ubuntu-latest\n    steps:\n      - run: echo ${{ steps.nothere.outputs.x }}\n      - run: echo plain\n      - id: ${{ matrix.name }}\n        run: echo\n"}}},
 	{Name: "matrix-objfilter", Jobs: []FragJob{{ID: "{P}mof", Body: "    strategy:\n      matrix:\n        include:\n          - name: first\n            targets: [{os: linux, arch: x64}, {os: darwin, arch: arm64}]\n            nums: [1, 2]\n    runs-on: ubuntu-latest\n    steps:\n      - run: echo \"${{ join(matrix.targets.*.os, ',') }}\"\n      - run: echo \"${{ join(matrix.targets.*.arch, ',') }}\"\n      - run: echo \"${{ matrix.targets.*.nope }} ${{ matrix.nums.*.x }}\"\n      - run: echo \"${{ matrix.targets[0].os }} ${{ toJSON(matrix.targets) }}\"\n"}}},
 	{Name: "no-matrix-ref", Jobs: []FragJob{{ID: "{P}nomx", Body: "    runs-on: ubuntu-latest\n    steps:\n      - run: echo ${{ matrix.foo }}\n"}}},
 	{Name: "uses-job-with-matrix", Assets: []string{"wf-opt"}, Clean: true, Jobs: []FragJob{{ID: "{P}call", Body: "    strategy:\n      matrix:\n        foo: [1, 2]\n    uses: ./.github/workflows/reuse-opt.yml\n    with:\n      note: n${{ matrix.foo }}\n"}}},
